@@ -376,6 +376,9 @@ class FlowDomain(Domain):
         if wrote and any(len(x) > 2 and x[0] == 'F' and x[1] == 'CLEANPENDING' and x[2] in wrote for x in mine):
             mine = frozenset(x for x in mine if not (len(x) > 2 and x[0] == 'F' and x[1] == 'CLEANPENDING' and x[2] in wrote)) \
                 | {('F', 'WROTE', c) for c in wrote}
+        if wrote and any(len(x) > 2 and x[0] == 'F' and x[1] == 'POPPED' and x[2] in wrote for x in mine):
+            # a helper wrote the top-table block whose index this frame took off the queue
+            mine = mine | {('F', 'WROTE', c) for c in wrote if ('F', 'POPPED', c) in mine}
         out = frozenset(x for x in tok_exit if x[0] not in ('F', 'OH')) | mine
         if short(cb.path) == 'flush_meta':
             # outcome of the last whole-metadata flush in this frame (C17.6)
